@@ -99,4 +99,63 @@ def select1 (words : List Nat) (factor n onesTotal x : Nat) : Option Nat :=
           | none => none
           | some p => some (p - 1)
 
+/-! ### select0 -/
+
+/-- Zeros before super-block `mid`: `mid * factor * W - Rs[mid]` (never negative: a word has at most `W` ones). -/
+def Rs0 (words : List Nat) (factor mid : Nat) : Nat := mid * factor * W - Rs words factor mid
+
+def selBin0 (words : List Nat) (factor x : Nat) : Nat → Nat → Nat → Nat → Option Nat
+  | 0, _, _, _ => none
+  | fuel + 1, l, r, mid =>
+    if l ≤ r then
+      if Rs0 words factor mid < x then selBin0 words factor x fuel (mid + 1) r ((mid + 1 + r) / 2)
+      else if mid = 0 then none
+      else selBin0 words factor x fuel l (mid - 1) ((l + (mid - 1)) / 2)
+    else some mid
+
+def selWords0 (words : List Nat) (integers : Nat) : Nat → Nat → Nat → Option (Option (Nat × Nat))
+  | 0, _, _ => none
+  | fuel + 1, left, x =>
+    match words[left]? with
+    | none => none
+    | some j =>
+      if W - popcount j < x then
+        if left + 1 > integers then some none else selWords0 words integers fuel (left + 1) (x - (W - popcount j))
+      else some (some (left, x))
+
+def selBytes0 (j x : Nat) : Nat × Nat × Nat :=
+  if 8 - popcount8 j < x then
+    let j1 := j >>> 8; let x1 := x - (8 - popcount8 j)
+    if 8 - popcount8 j1 < x1 then
+      let j2 := j1 >>> 8; let x2 := x1 - (8 - popcount8 j1)
+      if 8 - popcount8 j2 < x2 then (j2 >>> 8, x2 - (8 - popcount8 j2), 24) else (j2, x2, 16)
+    else (j1, x1, 8)
+  else (j, x, 0)
+
+/-- `while (x > 0) { if (j % 2 == 0) x--; j >>= 1; left++; }`. -/
+def selBits0 : Nat → Nat → Nat → Nat → Option Nat
+  | 0, _, _, _ => none
+  | fuel + 1, j, x, left => if x > 0 then selBits0 fuel (j >>> 1) (if j % 2 = 0 then x - 1 else x) (left + 1) else some left
+
+/-- `BitSequenceRG::select0(x)` on `n` bits (`onesTotal` = the member `ones`); `none` = a read outside the arrays. -/
+def select0 (words : List Nat) (factor n onesTotal x : Nat) : Option Nat :=
+  if x > n - onesTotal then some (2 ^ 32 - 1)
+  else if x = 0 then some 0
+  else
+    let s := W * factor
+    match selBin0 words factor x (n / s + 3) 0 (n / s) ((0 + n / s) / 2) with
+    | none => none
+    | some mid =>
+      match selWords0 words (n / W + 1) (words.length + 1) (mid * factor) (x - Rs0 words factor mid) with
+      | none => none
+      | some none => some n
+      | some (some (left, x')) =>
+        match words[left]? with
+        | none => none
+        | some j =>
+          let (j', x'', off) := selBytes0 j x'
+          match selBits0 40 j' x'' (left * W + off) with
+          | none => none
+          | some p => if p - 1 > n then some n else some (p - 1)
+
 end CSD.RG
